@@ -109,6 +109,9 @@ func (e *Env) evalPlace(x ast.Expr) place {
 		case "nil":
 			return place{val: Val{T: tyUntypedNil, L: []Term{rnil}}, T: tyUntypedNil}
 		}
+		if g, ok := e.x.prog.spec.GlobalGhosts[x.Name]; ok {
+			return place{isAddr: true, addr: extendGhost("(mkref 9998 pnil)", g.Index), T: e.x.parseType(g.Type)}
+		}
 		if o := e.pkgScope().Lookup(x.Name); o != nil {
 			switch o := o.(type) {
 			case *types.Const:
@@ -163,7 +166,9 @@ func (e *Env) evalPlace(x ast.Expr) place {
 		switch bt := base.T.Underlying().(type) {
 		case *types.Slice:
 			i := e.eval(x.Index)
-			return place{isAddr: true, addr: extendIdx(base.L[0], "(+ "+base.L[1]+" "+i.L[0]+")"), T: bt.Elem()}
+			ea := extendIdx(base.L[0], tAddInt(base.L[1], i.L[0]))
+			e.x.elemInfo[ea] = elemRef{arr: base.L[0], idx: tAddInt(base.L[1], i.L[0])}
+			return place{isAddr: true, addr: ea, T: bt.Elem()}
 		case *types.Map:
 			k := e.eval(x.Index)
 			k = e.coerce(k, bt.Key())
@@ -515,6 +520,19 @@ func (e *Env) evalCall(c *ast.CallExpr) Val {
 		// allocated(p): p existed in the pre-state of the enclosing contract
 		v := e.eval(arg(0))
 		return boolVal("(<= " + tRid(v.L[0]) + " " + e.old.alloc + ")")
+	case "emptyset":
+		t := setType(e.x.typeOfExpr(arg(0)))
+		return Val{T: t, L: []Term{zeroOfSort(leavesOf(t)[0].Sort)}}
+	case "setadd":
+		sv := e.eval(arg(0))
+		k := e.eval(arg(1))
+		return Val{T: sv.T, L: []Term{storeN(sv.L[0], k.L, "true")}}
+	case "domof":
+		m := e.eval(arg(0))
+		mt := m.T.Underlying().(*types.Map)
+		dom, _, _, _ := mapSorts(mt)
+		d := e.st.loadIn(e.cur, dom, extend(m.L[0], []int{0}))
+		return Val{T: setType(mt.Key()), L: []Term{tIte(tIsNil(m.L[0]), zeroOfSort(dom), d)}}
 	case "sameobj":
 		// sameobj(p, q): p and q point into the same allocation
 		a, b := e.eval(arg(0)), e.eval(arg(1))
